@@ -199,7 +199,15 @@ def run_case(case):
     if "search_method" in spec["options"]:
         spec = dict(spec, options=dict(spec["options"], search_method=[tuple(t) for t in spec["options"]["search_method"]]))
         case = dict(case, spec=spec)
-    return C.run_monitored(case, {"C18"})
+    rec = C.run_monitored(case, {"C18"})
+    e = rec.get("exc")
+    if rec.get("status") == "exception" and e and not e.get("origin_in_boundary"):
+        inner = e.get("inner") or ("?", "?", 0)
+        if inner[0] in ("es_search.py", "search_hedge.py"):
+            # the statement quantifies over ALL candidate-population sizes, incl. populations shrunk to a few or
+            # zero survivors: a strategy that raises for such a population proposes nothing
+            rec["viol"].append({"key": f"C18/search-strategy-raised:{e['type']}@{inner[0]}:{inner[1]}", "detail": {"msg": e["msg"], "line": inner[2], "flags": rec.get("flags")}})
+    return rec
 
 
 def summarize(records, tier, seed):
